@@ -41,6 +41,7 @@ class Gen:
         self.loop = 0
         self.vararg = [True]      # main chunk is vararg
         self.markers = markers    # optional callable producing a literal token text (C04)
+        self.fold = 0             # > 0 inside an operator / if-expression (constant folding may re-create literals)
         self.features = set()
 
     # -- emission helpers
@@ -50,7 +51,10 @@ class Gen:
         self.toks.append((text, kind))
 
     def name(self):
-        self.t(self.rng.choice(NAMES), "name")
+        if self.markers and self.chance(1, 2):
+            self.t(self.markers("name"), "name")
+        else:
+            self.t(self.rng.choice(NAMES), "name")
 
     def chance(self, a, b):
         return self.rng.randrange(b) < a
@@ -58,14 +62,14 @@ class Gen:
     # -- expressions
     def number(self):
         self.features.add("number")
-        if self.markers:
+        if self.markers and self.fold == 0:
             self.t(self.markers("number"), "number")
         else:
             self.t(self.rng.choice(NUMBERS), "number")
 
     def string(self):
         self.features.add("string")
-        if self.markers and self.chance(2, 3):
+        if self.markers and self.fold == 0 and self.chance(2, 3):
             self.t(self.markers("string"), "string")
         else:
             self.t(self.rng.choice(STRINGS), "string")
@@ -90,9 +94,11 @@ class Gen:
         """name or parenthesised expression followed by suffixes; returns True when it ends in a call"""
         if self.chance(1, 8) and not statement:
             self.features.add("paren")
+            self.fold += 1
             self.t("(")
             self.expr()
             self.t(")")
+            self.fold -= 1
         else:
             self.name()
         is_call = False
@@ -188,7 +194,9 @@ class Gen:
         self.t(")")
         self.vararg.append(va)
         saved_loop, self.loop = self.loop, 0
+        saved_fold, self.fold = self.fold, 0
         self.block()
+        self.fold = saved_fold
         self.loop = saved_loop
         self.vararg.pop()
         self.t("end")
@@ -218,15 +226,19 @@ class Gen:
                 self.simple_expr()
             elif r <= 8:
                 self.features.add("binary")
+                self.fold += 1
                 self.expr()
                 op = self.rng.choice(BINOPS)
                 self.features.add("op" + op)
                 self.t(op)
                 self.expr()
+                self.fold -= 1
             elif r == 9:
                 self.features.add("unary")
+                self.fold += 1
                 self.t(self.rng.choice(UNOPS))
                 self.expr()
+                self.fold -= 1
             elif r <= 11:
                 self.prefix_expr()
             elif r == 12:
@@ -237,11 +249,14 @@ class Gen:
                 self.function_body()
             elif r == 14:
                 self.features.add("paren")
+                self.fold += 1
                 self.t("(")
                 self.expr()
                 self.t(")")
+                self.fold -= 1
             elif r == 15 and self.luau:
                 self.features.add("if-expr")
+                self.fold += 1
                 self.t("if")
                 self.expr()
                 self.t("then")
@@ -253,8 +268,11 @@ class Gen:
                     self.expr()
                 self.t("else")
                 self.expr()
+                self.fold -= 1
             elif r == 16 and self.luau:
+                self.fold += 1
                 self.interpolated()
+                self.fold -= 1
             elif r == 17:
                 # concat with a number right after `..`
                 self.features.add("concat-number")
